@@ -590,3 +590,106 @@ func indexIn(in ssa.Instruction) int {
 	}
 	return -1
 }
+
+// sizeLimitField resolves the role "data-file size limit": the Options field compared with a value derived from
+// (*DataFile).Size() in the write path.
+func sizeLimitField(p *core.Prog) *types.Var {
+	szFn := p.MustMethod(p.R.DataFile, "Size")
+	var fromSize func(v ssa.Value, d int) bool
+	fromSize = func(v ssa.Value, d int) bool {
+		if d > 6 {
+			return false
+		}
+		switch t := v.(type) {
+		case *ssa.Call:
+			return t.Common().StaticCallee() == szFn
+		case *ssa.BinOp:
+			return fromSize(t.X, d+1) || fromSize(t.Y, d+1)
+		case *ssa.Convert:
+			return fromSize(t.X, d+1)
+		}
+		return false
+	}
+	var found *types.Var
+	for _, fn := range p.LibFuncs() {
+		for _, b := range fn.Blocks {
+			for _, in := range b.Instrs {
+				bo, ok := in.(*ssa.BinOp)
+				if !ok {
+					continue
+				}
+				switch bo.Op {
+				case token.GTR, token.GEQ, token.LSS, token.LEQ:
+				default:
+					continue
+				}
+				for _, pr := range [][2]ssa.Value{{bo.X, bo.Y}, {bo.Y, bo.X}} {
+					if f := core.LastField(core.Unwrap(pr[0])); f != nil && fieldOwner(p, f) == p.R.Options && fromSize(pr[1], 0) {
+						if found != nil && found != f {
+							core.Failf("role ambiguous: data-file size limit (%s, %s)", found.Name(), f.Name())
+						}
+						found = f
+					}
+				}
+			}
+		}
+	}
+	if found == nil {
+		core.Failf("role unresolved: Options field compared with (*DataFile).Size()")
+	}
+	return found
+}
+
+// cf2RecoveryIgnoresLimit: a directory must reopen to the same mapping whichever size limit it is reopened with. The
+// limit therefore has no business in the code that only Open runs (file discovery, choice of the active file, replay,
+// hint loading, adoption) beyond validating the option itself.
+func cf2RecoveryIgnoresLimit(p *core.Prog, rep *core.Report) {
+	rep.Rule("CF2", "recovery is independent of the size limit: in functions reachable from Open and from no other public entry point, a load of the size-limit option is used only in comparisons with constants (option validation); it is never compared with a file size, passed on or stored")
+	limit := sizeLimitField(p)
+	open := p.Func(core.ModPath, "Open")
+	fromOpen := p.ReachableFrom([]*ssa.Function{open}, p.InLib)
+	fromOthers := p.ReachableFrom(publicEntries(p), p.InLib)
+	var bad []string
+	nScope, nLoads := 0, 0
+	for fn := range fromOpen {
+		if fromOthers[fn] {
+			continue
+		}
+		nScope++
+		for _, b := range fn.Blocks {
+			for _, in := range b.Instrs {
+				u, ok := in.(*ssa.UnOp)
+				if !ok {
+					continue
+				}
+				if f, _ := core.LoadedField(u); f != limit {
+					continue
+				}
+				nLoads++
+				for _, ref := range *u.Referrers() {
+					okUse := false
+					if bo, ok := ref.(*ssa.BinOp); ok {
+						other := bo.X
+						if other == ssa.Value(u) {
+							other = bo.Y
+						}
+						if _, isC := constInt(other); isC {
+							okUse = true
+						}
+					}
+					if _, ok := ref.(*ssa.DebugRef); ok {
+						okUse = true
+					}
+					if !okUse {
+						bad = append(bad, fmt.Sprintf("%s uses Options.%s at %s for something other than validating it: what Open reconstructs then depends on the limit the directory is reopened with", core.FuncKey(fn), limit.Name(), p.InstrPos(ref.(ssa.Instruction))))
+					}
+				}
+			}
+		}
+	}
+	if nScope < 3 {
+		rep.Unk("VAC", "CF2", "expected >= 3 Open-only functions", "", fmt.Sprintf("found %d", nScope))
+		return
+	}
+	rep.Check(len(bad) == 0, "CF2", "open-ignores-size-limit", fmt.Sprintf("%d Open-only functions, %d loads of Options.%s, all validation", nScope, nLoads, limit.Name()), p.Pos(open.Pos()), strings.Join(sortedStr(bad), "; "), true)
+}
